@@ -2,6 +2,7 @@
 from __future__ import annotations
 
 import collections
+import re
 import os
 
 from .. import corpus, env, model, refdict, render, scanner
@@ -45,6 +46,10 @@ class Placer:
     def _new(self, kind, hash_only=False):
         self.n += 1
         ch = self.ch
+        if ch.chance(1, 12):
+            # nothing but a word - also one that names a block type (what end_comment itself writes behind END)
+            w = ch.choice(["Legend", "LAYER", "class", "Style", "MAP", "END", "metadata", "POINTS", "todo", "x"])
+            return ch.choice(["# ", "#", "# "]) + w
         if self.texts and ch.chance(1, 7):
             # the same comment text a second time (a repeated banner, the same TODO on two lines)
             again = [c for c in self.texts if c.startswith("#") or not hash_only]
@@ -198,6 +203,19 @@ def check_comments(src, placed, case, opts=None, position=False):
     res = []
     src_comments = scanner.scan(src)
     out_comments = scanner.scan(out)
+    if opts.get("end_comment"):
+        # the option writes a comment of its own behind every END ('END # LAYER'): not a kept comment
+        chars0 = list(out)
+        for oc in out_comments:
+            for k in range(oc.off, oc.off + len(oc.raw)):
+                chars0[k] = " "
+        blank0 = "".join(chars0)
+
+        def end_comment(oc):
+            start = blank0.rfind("\n", 0, oc.off) + 1
+            return blank0[start:oc.off].strip().upper() == "END" and re.fullmatch(r"# [A-Z]+", oc.text) is not None
+
+        out_comments = [oc for oc in out_comments if not end_comment(oc)]
     avail = collections.Counter(c.text for c in src_comments)
     for oc in out_comments:
         if not scanner.decomposable(oc.text, avail):
@@ -334,7 +352,7 @@ def search(acc: Acc, tier, shard, nshards):
             from .. import options
 
             opts = options.draw(ch, quotes=['"'], linebreak_only=True, has_comments=True)
-            opts["end_comment"] = False
+            opts["end_comment"] = ch.chance(1, 4)   # (its own 'END # TYPE' comments are set aside by the oracle)
             acc.cls("with_layout_options")
         position = ch.chance(1, 3)
         if position:
